@@ -7,6 +7,7 @@
 //   idx B<data> B<rgba palette>               ColorFormat::CI8.decode_indexed
 //   pal <w> <h> B<image data> B<palette data> CI8 image + RGB5A3 palette through a single-image TPL (Tpl::extract_textures)
 //   bigpal ...                                same, oracle-only
+//   ctpkprobe <fmt> <w> <h> <len>             ctpk::read with a zero payload of len bytes: "ok <output length>" | "err"
 //   cfdec <cf> B<data>                        ColorFormat::<cf>.decode, cf: 0 RGBA8, 1 RGB5A3, 2 CI8, other Unrecognized
 //   cfidx <cf> B<data> B<rgba palette>        ColorFormat::<cf>.decode_indexed
 //                                             (these two print the error variant: "err <Variant>")
@@ -102,6 +103,18 @@ fn show_cf(r: std::result::Result<Vec<u8>, TextureDecodeError>) -> String {
 
 pub fn run(toks: &[&str]) -> String {
     match toks[0] {
+        "ctpkprobe" => {
+            // ctpk::read on a zero-filled payload of the given length: "ok <pixel_data.len()>" | "err"
+            let fmt: u32 = toks[1].parse().unwrap();
+            let w: u16 = toks[2].parse().unwrap();
+            let h: u16 = toks[3].parse().unwrap();
+            let len: usize = toks[4].parse().unwrap();
+            let file = ctpk_single(fmt, w, h, &vec![0u8; len]);
+            match ctpk::read(&file) {
+                Ok(t) => format!("ok {}", t[0].pixel_data.len()),
+                Err(_) => "err".to_string(),
+            }
+        }
         "cfdec" => show_cf(color_format(toks[1]).decode(&parse_b(toks[2]))),
         "cfidx" => show_cf(color_format(toks[1]).decode_indexed(&parse_b(toks[2]), &parse_b(toks[3]))),
         "color" | "bigcolor" => {
